@@ -166,7 +166,11 @@ class DatabaseService(Service, discriminator="database-service"):
 
         # if the file was deleted, get the old visible health state
         if db_file.deleted:
-            old_visible_state = db_file.visible_health_status
+            # several deleted copies can carry the name (each restore leaves one behind): the last one deleted is the
+            # one whose visible health the file showed most recently
+            folder = self.file_system.get_folder(folder_name="database", include_deleted=True)
+            copies = [f for f in folder.deleted_files.values() if f.name == db_file.name]
+            old_visible_state = (copies[-1] if copies else db_file).visible_health_status
         else:
             old_visible_state = self.db_file.visible_health_status
             self.file_system.delete_file(folder_name="database", file_name="database.db")
